@@ -6,9 +6,14 @@ import CalicoVerif.Gen.C13
   `sizeatmost <ver> <struct> <n>`                → `ok` | `too-big:<sizeof>`
   `off <ver> <struct> <path>`                    → `<bit offset> <bit size>`
   `within <ver> <struct> <path> <bitoff> <bits>` → `ok` | `no:<bit offset> <bit size>`
-  `enc <ver> <struct> <path>=le:<n>|raw:<hex> …` → hex of the structure with the values at the C offsets
+  `enc <ver> <struct> <path>=le:<n>|num:<n>|raw:<hex> …` → hex of the structure with the values at the C
+                                                    offsets (`num`: byte order from the C declared type,
+                                                    big-endian for `__be16/32/64`, else little-endian)
 -/
 open CalicoVerif CalicoVerif.C13 CalicoVerif.Proto
+
+def beOf (v : String) : List (String × String) :=
+  if v == "4" then Gen.V4.beFields else if v == "6" then Gen.V6.beFields else []
 
 def structsOf (v : String) : Option Structs :=
   if v == "4" then some Gen.V4.structs else if v == "6" then some Gen.V6.structs else none
@@ -41,13 +46,18 @@ def leBytes : Nat → Nat → List Nat
 def writeAt (bs : List Nat) (off : Nat) (vals : List Nat) : List Nat :=
   bs.take off ++ vals ++ bs.drop (off + vals.length)
 
-def encField (ss : Structs) (st : String) (buf : List Nat) (w : String) : Option (List Nat) :=
+def encField (be : List (String × String)) (ss : Structs) (st : String) (buf : List Nat) (w : String) : Option (List Nat) :=
   match w.splitOn "=" with
   | [path, v] =>
     match findPath ss st path, v.splitOn ":" with
     | some (o, n), ["le", num] =>
       if o % 8 != 0 || n % 8 != 0 then none
       else num.toNat?.map (fun k => writeAt buf (o / 8) (leBytes (n / 8) k))
+    | some (o, n), ["num", num] =>
+      if o % 8 != 0 || n % 8 != 0 then none
+      else num.toNat?.map (fun k =>
+        let bs := leBytes (n / 8) k
+        writeAt buf (o / 8) (if be.contains (st, path) then bs.reverse else bs))
     | some (o, n), ["raw", h] =>
       match unhex h.toList with
       | some bytes => if o % 8 == 0 && bytes.length * 8 == n then some (writeAt buf (o / 8) bytes) else none
@@ -80,7 +90,7 @@ def step (u : Unit) (line : String) : Unit × String :=
       match sizeOfStruct ss st with
       | none => (u, "bad-op")
       | some sz =>
-        match fields.foldlM (encField ss st) (List.replicate sz 0) with
+        match fields.foldlM (encField (beOf v) ss st) (List.replicate sz 0) with
         | some buf => (u, hexOf buf)
         | none => (u, "bad-op")
   | _ => (u, "bad-op")
